@@ -9,7 +9,7 @@ HT = "sharepoint2text/parsing/extractors/html_extractor.py"
 MUTANTS = [
     M("html-every-start-tag-deepens", H, "        if self.skip_depth > 0:\n            if tag == self._skip_tag:\n                self.skip_depth += 1\n            return\n\n        if tag in REMOVE_TAGS:", "        if self.skip_depth > 0:\n            self.skip_depth += 1\n            return\n\n        if tag in REMOVE_TAGS:", "C17-SKIP"),
     M("html-any-end-tag-closes", H, "        if self.skip_depth > 0:\n            if tag == self._skip_tag:\n                self.skip_depth -= 1\n                if self.skip_depth == 0:\n                    self._skip_tag = None\n            return", "        if self.skip_depth > 0:\n            self.skip_depth -= 1\n            if self.skip_depth == 0:\n                self._skip_tag = None\n            return", "C17-SKIP"),
-    M("html-void-removable-opens-skip", H, "            if tag not in _VOID_TAGS:\n                self.skip_depth = 1\n                self._skip_tag = tag\n            return\n\n        # Clear last_closed", "            self.skip_depth = 1\n            self._skip_tag = tag\n            return\n\n        # Clear last_closed", "C17-SKIP"),
+    M("html-void-removable-opens-skip", H, "            if tag not in _VOID_TAGS:\n                self.skip_depth = 1\n                self._skip_tag = tag\n            return\n\n        # A start tag may stand", "            self.skip_depth = 1\n            self._skip_tag = tag\n            return\n\n        # A start tag may stand", "C17-SKIP"),
     M("html-data-written-while-skipping", H, "    def handle_data(self, data: str):\n        if self.skip_depth > 0:\n            return\n\n        if self.last_closed is not None:", "    def handle_data(self, data: str):\n        if self.last_closed is not None:", "C17-N4"),
     M("html-comments-kept", H, "    def handle_comment(self, data: str):\n        # Ignore comments\n        pass", "    def handle_comment(self, data: str):\n        if self.stack:\n            self.stack[-1][\"text\"] += data", "C17-N4"),
     M("html-noscript-not-removed", H, "REMOVE_TAGS = ", "REMOVE_TAGS_ORIG = ", "C17-SKIP"),
